@@ -395,6 +395,12 @@ def query_ops_for(paths_texts, names):
     return ops
 
 
+def nav_first(q, path):
+    """the position-based navigation queries of one document first (they resolve a name while holding their own guards), the rest after"""
+    nav = [o for o in q if o.get("path") == path and o["op"] in ("goto", "goto_or_def", "refs_at", "name_at")]
+    return nav + [o for o in q if o not in nav]
+
+
 def broken_round(texts):
     paths = list(texts)
     p0 = next((p for p in paths if p.endswith("conftest.py")), paths[0])
@@ -531,13 +537,24 @@ def check_c12(tier):
                 fh.write(r.text)
         texts = {uni.paths[sl]: r.text for sl, r in rendered.items()}
         q = query_ops_for(texts, ["fa", "fb", "fc"])
+        # a conftest in an unrelated directory defines the same names: they are KNOWN to the index although the modules the
+        # using file's conftest imports were never analysed
+        other_p = root + "/G/other/conftest.py"
+        other_t = "import pytest\n" + "".join("\n\n@pytest.fixture\ndef f%s():\n    return 0\n" % x for x in "abc")
+        os.makedirs(os.path.dirname(other_p), exist_ok=True)
+        with open(other_p, "w") as fh:
+            fh.write(other_t)
         variants = [("scan", [{"op": "scan", "root": root + "/G"}]),
                     ("scan_plugin", [{"op": "mark_plugin", "path": uni.paths["ha"]}, {"op": "scan", "root": root + "/G"}]),
-                    ("unscanned_modules", [{"op": "analyze", "path": uni.paths[sl], "text": rendered[sl].text} for sl in ("c", "t")])]
+                    ("unscanned_modules", [{"op": "analyze", "path": uni.paths[sl], "text": rendered[sl].text} for sl in ("c", "t")] +
+                     [{"op": "analyze", "path": other_p, "text": other_t}])]
         for vname, setup in variants:
             cid = len(cases)
             cases.append({"id": cid, "one_shard": gi % 2 == 0, "mode": "trace", "pre": [],
-                          "threads": [setup + [{"op": "imported", "path": uni.paths["c"]}] + q], "schedule": [], "post": []})
+                          # (with never-analysed modules the navigation queries come FIRST: they meet the modules while holding
+                          # their own guards; the bare imported-fixtures query would visit them guard-free)
+                          "threads": [setup + (nav_first(q, uni.paths["t"]) + [{"op": "imported", "path": uni.paths["c"]}] if vname == "unscanned_modules"
+                                               else [{"op": "imported", "path": uni.paths["c"]}] + q)], "schedule": [], "post": []})
             info[cid] = ("disk_" + vname, {"edges": eff, "kind": kind}, gi % 2 == 0)
             if vname != "unscanned_modules":
                 graph_info[cid] = (eff, len(setup))
